@@ -51,7 +51,7 @@ Definition cmd_enabled (s : state) (c : cmd) : bool :=
   | CNew _ | CLoad _ _ | CLoadFull _ _ | CRcu _ _ _ | CIntoInner _ _ | CDropStore _
   | CCacheNew _ _ | CSetGen _ => true
   | CClone h _ => match hnd s h with HOwned _ | HGuard _ _ => true | _ => false end
-  | CDrop h => match hnd s h with HEmpty => false | _ => true end
+  | CDrop h | CMove h _ => match hnd s h with HEmpty => false | _ => true end
   | CGuardInto h _ => match hnd s h with HGuard _ _ => true | _ => false end
   | CStore _ v | CSwap _ v _ => match v with SNull => true | SHandle h => match hnd s h with HOwned _ => true | _ => false end end
   | CCas _ cur new _ =>
@@ -148,6 +148,8 @@ Definition cmd_start (cf : config) (s : state) (l : tlocal) (c : cmd)
       | HCache c a => inl (s, l, [Q1 c a k; KCacheDone c k], RUnit)
       | _ => inl (s, l, [], RUnit)
       end
+  | CMove h h2 =>
+      inl (mkState (sh s) (thr s) (upd (upd (hnd s) h HEmpty) h2 (hnd s h)), l, [], RUnit)
   | CSetGen g =>
       match tl_node l with
       | None => inl (s, l, [GHead; WGetSetGen g; KDone None], RUnit)
